@@ -3,6 +3,7 @@
 //! Every sub-command executes operation sequences against the real API and
 //! writes an ndjson trace that a `*_Trace.tla` module validates; no
 //! interpretation of observed state happens here.
+mod session;
 mod uf;
 mod util;
 
@@ -15,6 +16,7 @@ fn main() {
     let rest = &args[2..];
     let r = match args[1].as_str() {
         "uf" => uf::main(rest),
+        "session" => session::main(rest),
         other => Err(format!("unknown driver {other}")),
     };
     if let Err(e) = r {
